@@ -820,8 +820,26 @@ Definition vljg (l : ljg) : val :=
      vlist (fun i => match find_job i (jg_jobs (l_jg l)) with Some j => vjob l j | None => L [] end)
            (g_nodes (jg_graph (l_jg l)))].
 
-Record load_case := mkLC { lc_profiles : option (list d_profile); lc_graphs : option (list d_graph); lc_flags : d_flags;
-                           lc_completion : option etime; lc_zcalls : list (list Z); lc_fcalls : list (list fl); lc_us : list fl }.
+(* the raw flag values; WorkloadLoader.__init__ turns them into overrides *)
+Record raw_flags := mkRF { rf_rate : fl; rf_coef : fl; rf_period : Z; rf_inv : Z; rf_unique : bool; rf_repl : Z;
+                           rf_slo : Z; rf_minb : Z; rf_maxb : Z }.
+Definition flags_view (o : option raw_flags) : d_flags :=
+  match o with
+  | None => mkDF None None None None false 1 None 0 (2 ^ 63 - 1)
+  | Some r => mkDF (if fl_ltb eps (rf_rate r) then Some (rf_rate r) else None)
+                   (if fl_ltb eps (rf_coef r) then Some (rf_coef r) else None)
+                   (if 0 <? rf_period r then Some (rf_period r) else None)
+                   (if 0 <? rf_inv r then Some (rf_inv r) else None)
+                   (rf_unique r) (rf_repl r)
+                   (if 0 <? rf_slo r then Some (rf_slo r) else None) (rf_minb r) (rf_maxb r)
+  end.
+(* without flags the horizon is EventTime(sys.maxsize, US); with flags it is the bare integer flag *)
+Definition loader_horizon (o : option raw_flags) : option etime :=
+  match o with None => Some (mkET (2 ^ 63 - 1) U_US) | Some _ => None end.
+Record load_case := mkLC { lc_profiles : option (list d_profile); lc_graphs : option (list d_graph); lc_rflags : option raw_flags;
+                           lc_zcalls : list (list Z); lc_fcalls : list (list fl); lc_us : list fl }.
+Definition lc_flags (c : load_case) : d_flags := flags_view (lc_rflags c).
+Definition lc_completion (c : load_case) : option etime := loader_horizon (lc_rflags c).
 Definition load_observe (c : load_case) : val :=
   vres (fun p => L [vlist vljg (fst p);
                     vlist (fun x => L [I (fst (fst x)); I (snd (fst x)); vtgs (snd x)]) (snd p)])
@@ -830,3 +848,12 @@ Definition load_observe (c : load_case) : val :=
                        (lc_zcalls c) (lc_fcalls c) (lc_us c) 0) (fun tgs => Ok (ls, tgs)))).
 Definition pools_observe (ps : list d_pool) : val :=
   vres (vlist (fun p => L [I (fst p); vlist (fun w => L [I (fst w); vlist vres_spec (snd w)]) (snd p)])) (load_pools ps).
+
+(* structure of an instantiated graph against its job graph: the same named nodes, each with the
+   same children in the same order; the observation is (name, children names) per node *)
+Definition nadj := list (Z * list Z).
+Fixpoint nadj_get (k : Z) (l : nadj) : option (list Z) :=
+  match l with [] => None | (k', v) :: l' => if k' =? k then Some v else nadj_get k l' end.
+Definition mon_iso (jobs tasks : nadj) : bool :=
+  (length jobs =? length tasks)%nat && nodup_b (map fst tasks) &&
+  forallb (fun kv => match nadj_get (fst kv) tasks with Some cs => zlist_eqb cs (snd kv) | None => false end) jobs.
